@@ -61,7 +61,7 @@ def main(src, seed_id, prop, needs=""):
         for p in ALL:
             _, rc, cons, err = run_check(p, dirty)
             if rc == 1:
-                fired[p] = [c.split(" ", 2)[0] + " " + c.split(" ")[-1] for c, _ in cons]
+                fired[p] = [c.split(" ", 2)[0] + " " + (c.split(" ", 2)[2] if len(c.split(" ", 2)) > 2 else "") for c, _ in cons]
             elif rc == 2:
                 errors[p] = err[:1]
         dest = os.path.join(VERIF, "seeded", seed_id)
